@@ -174,7 +174,12 @@ def _flatten_jac(jac, nmeas, nparams):
 def replay(p):
     if p.get("kind") == "adjoint":
         return _num_adjoint(p["circuit"], p["meas"], p["params"], p["mode"])
-    return _num(p["circuit"], p["meas"], p["method"], p["params"])
+    try:
+        if p.get("occ"):
+            return _num_occ(p["circuit"], p["meas"], p["method"], p["params"])
+        return _num(p["circuit"], p["meas"], p["method"], p["params"])
+    except (TypeError, AttributeError, IndexError, KeyError, ValueError) as e:
+        return True, f"the library raised {e!r}"
 
 
 def work(item):
@@ -228,7 +233,15 @@ def work(item):
     except (TypeError, AttributeError, IndexError, KeyError, np.linalg.LinAlgError) as e:
         import traceback
 
-        return [{"name": name, "status": "unsupported", "detail": f"{e!r} {traceback.format_exc(limit=5)[-500:]}"}]
+        tb = traceback.format_exc(limit=5)[-500:]
+        # engine limitation or library failure?  the same call with plain floats decides
+        vals = [0.37 + 0.41 * k for k in range(nocc)]
+        try:
+            ok, obs = _num_occ(cname, mname, meth, vals)
+        except Exception as e2:  # the unmodified library raises on plain floats as well
+            return [{"name": f"{name}: returns a gradient", "status": "violated", "symbols": [f"t{k}" for k in range(nocc)], "nontrivial": True, "queries": 0, "signature": f"{meth}:{cname}:{mname}",
+                     "detail": f"the library raised {e2!r} on plain float parameters {vals}", "replay": {"circuit": cname, "meas": mname, "method": meth, "params": vals, "occ": True, "observed": repr(e2)}}]
+        return [{"name": name, "status": "unsupported", "detail": f"{e!r} {tb}"}]
 
 
 def _num_occ(cname, mname, meth, occ_vals):
@@ -284,17 +297,23 @@ def _num_adjoint(cname, mname, occ_vals, mode):
         up[k] += h
         dn[k] -= h
         J[:, k] = (run(up) - run(dn)) / (2 * h)
-    if mode == "jacobian":
-        got = np.asarray(adjoint_jacobian(tape), dtype=float).reshape(nm, npar)
-        d = float(np.max(np.abs(got - J)))
-    elif mode == "vjp":
-        cot = tuple(0.3 + 0.5 * j for j in range(nm)) if nm > 1 else 0.8
-        got = np.asarray(adjoint_vjp(tape, cot), dtype=float).ravel()
-        d = float(np.max(np.abs(got - (np.atleast_1d(cot) @ J))))
-    else:
-        tan = tuple(0.2 - 0.3 * k for k in range(npar))
-        got = np.asarray(adjoint_jvp(tape, tan), dtype=float).ravel()
-        d = float(np.max(np.abs(got - (J @ np.asarray(tan)))))
+    try:
+        if mode == "jacobian":
+            raw = adjoint_jacobian(tape)
+            got = np.asarray(raw, dtype=float).reshape(nm, npar)
+            d = float(np.max(np.abs(got - J)))
+        elif mode == "vjp":
+            cot = tuple(0.3 + 0.5 * j for j in range(nm)) if nm > 1 else 0.8
+            raw = adjoint_vjp(tape, cot)
+            got = np.asarray(raw, dtype=float).ravel()
+            d = float(np.max(np.abs(got - (np.atleast_1d(cot) @ J))))
+        else:
+            tan = tuple(0.2 - 0.3 * k for k in range(npar))
+            raw = adjoint_jvp(tape, tan)
+            got = np.asarray(raw, dtype=float).ravel()
+            d = float(np.max(np.abs(got - (J @ np.asarray(tan)))))
+    except (TypeError, ValueError, IndexError) as e:
+        return True, f"adjoint_{mode} on {cname} [{mname}] at {list(occ_vals)}: no well-formed result ({e!r}; returned {locals().get('raw', '<raised>')!r})"
     return d > 1e-5, f"adjoint_{mode} on {cname} [{mname}] at {list(occ_vals)}: max deviation from finite differences {d:.3g}"
 
 
@@ -357,6 +376,15 @@ def adjoint_work(item):
             ok, obs = _num_adjoint(cname, mname, occ_vals, mode)
             return ok, {"kind": "adjoint", "circuit": cname, "meas": mname, "params": occ_vals, "mode": mode, "observed": obs}
 
+        flat_got = [x for x in np.asarray(got, dtype=object).ravel()]
+        want_n = {"jacobian": nm * npar, "vjp": npar, "jvp": nm}[mode]
+        if any(x is None for x in flat_got) or len(flat_got) != want_n:
+            vals = [0.37 + 0.41 * k for k in range(nocc)]
+            ok, obs = _num_adjoint(cname, mname, vals, mode)
+            _shim_adjoint_module(True)
+            return [{"name": f"{name}: result has one finite entry per requested derivative", "status": "violated" if ok else "inconclusive", "symbols": [f"t{k}" for k in range(nocc)], "nontrivial": True,
+                     "queries": 0, "signature": f"adjoint_{mode}:{cname}:{mname}", "detail": f"symbolic run returned {len(flat_got)} entries (expected {want_n}), None entries: {sum(x is None for x in flat_got)}; {obs}",
+                     "replay": {"kind": "adjoint", "circuit": cname, "meas": mname, "params": vals, "mode": mode, "observed": obs}}]
         if mode == "jacobian":
             g = sx.arr(np.asarray(got, dtype=object)).reshape(nm, npar)
             lhs, rhs = list(g.ravel()), [J[m][k] for m in range(nm) for k in range(npar)]
@@ -375,7 +403,16 @@ def adjoint_work(item):
     except (TypeError, AttributeError, IndexError, KeyError, ValueError, np.linalg.LinAlgError) as e:
         import traceback
 
-        return [{"name": name, "status": "unsupported", "detail": f"{e!r} {traceback.format_exc(limit=5)[-500:]}"}]
+        tb = traceback.format_exc(limit=5)[-500:]
+        vals = [0.37 + 0.41 * k for k in range(nocc)]
+        try:
+            ok, obs = _num_adjoint(cname, mname, vals, mode)
+        except Exception as e2:
+            ok, obs = True, f"the library raised {e2!r} on plain float parameters {vals}"
+        if ok:
+            return [{"name": f"{name}: returns the derivative", "status": "violated", "symbols": [f"t{k}" for k in range(nocc)], "nontrivial": True, "queries": 0, "signature": f"adjoint_{mode}:{cname}:{mname}",
+                     "detail": obs, "replay": {"kind": "adjoint", "circuit": cname, "meas": mname, "params": vals, "mode": mode, "observed": obs}}]
+        return [{"name": name, "status": "unsupported", "detail": f"{e!r} {tb}"}]
 
 
 def _dispatch(it):
